@@ -1,6 +1,9 @@
 import XrsVerif.Proofs.Focal
 import XrsVerif.Proofs.FocalHot
 import XrsVerif.Proofs.ILFocal
+import XrsVerif.Proofs.ILApplyRefines
+import XrsVerif.Proofs.ILApplyEven
+import XrsVerif.Proofs.ILMeanIter
 /-
   C09 -- Focal results are statistics of exactly the cells under the kernel.
 
@@ -530,6 +533,237 @@ theorem il_conv_nan_in_window (data kernel : List (NV K)) (nx ny a b : Nat) (s :
 
 end ILExact
 
+
+/-! ## Part D: the programs generated from `_apply_numpy` and `_mean_numpy` (layer T3)
+
+  `Gen.IL.applyMean`, `applySum`, `applyMin`, `applyMax`, `applyRange`, `applyStd`, `applyVar` are `_apply_numpy`
+  translated statement by statement (harness/facts_il.py) and specialised to each built-in reducer `_calc_*` (inlined
+  through `.scope`; `_calc_range` inlines `_calc_min` and `_calc_max`); `Gen.IL.meanNumpy` is `_mean_numpy` with
+  `_equal_numpy` inlined and the slice `data[bottom:top, left:right]` copied into a scratch array.  numpy's `np.nan*`
+  reductions are `RedOp.eval` of Core/ILang.lean (numba's one-pass semantics), which *is* the model's
+  `nanmean` … `nanstd` (`il_reductions_are_model`, by `rfl`: same filter, same fold order, NaN for an empty selection).
+  The theorems below are about those programs: run on any raster and any kernel of odd shape they return, with no
+  out-of-range access, exactly the models `applyFlat` / `meanCell` of Part A -- so `apply_window`, `window_entry`,
+  `builtin_stats`, `focal_stats_stack`, `mean_spec`, `mean_passes`, `mean_eq_apply_ones` are statements about what the
+  generated code computes. -/
+section ILApplyGeneric
+open XrsVerif.IL
+variable {F : Type} [Fl F]
+
+/-- the seven generated `_apply_numpy` programs with the model reducer each one inlines, in `focal_stats` table order -/
+def ilApplyProgs : List (String × Prog × (List F → F)) :=
+  [("mean", Gen.IL.applyMean, nanmean), ("max", Gen.IL.applyMax, nanmax), ("min", Gen.IL.applyMin, nanmin),
+   ("range", Gen.IL.applyRange, fun w => Fl.sub (nanmax w) (nanmin w)), ("std", Gen.IL.applyStd, nanstd),
+   ("var", Gen.IL.applyVar, nanvar), ("sum", Gen.IL.applySum, nansum)]
+
+/-- numba's one-pass `np.nan*` reductions of ILang are the model's reductions: same NaN filter, same left-to-right
+    accumulation from `0.0`, first extreme entry kept, `0/0 = NaN` (or NaN outright for min / max) on an empty selection -/
+theorem il_reductions_are_model (xs : List F) :
+    RedOp.eval .nansum xs = nansum xs ∧ RedOp.eval .nanmean xs = nanmean xs ∧ RedOp.eval .nanmin xs = nanmin xs ∧
+    RedOp.eval .nanmax xs = nanmax xs ∧ RedOp.eval .nanvar xs = nanvar xs ∧ RedOp.eval .nanstd xs = nanstd xs :=
+  ⟨red_eval_nansum xs, red_eval_nanmean xs, red_eval_nanmin xs, red_eval_nanmax xs, red_eval_nanvar xs,
+   red_eval_nanstd xs⟩
+
+/-- **il_apply_refines.** each of the seven generated `_apply_numpy` programs, any raster (also empty, also smaller than
+    the kernel), any kernel of odd shape, any fuel: ends with `return`, no out-of-range access, inputs unchanged, `out`
+    has the raster's shape and is the model `applyFlat` with that program's reducer on the flattened window -/
+theorem il_apply_refines (data kernel : List F) (rows cols kr kc : Nat) (hkr : kr % 2 = 1) (hkc : kc % 2 = 1)
+    (s : State F) (fuel : Nat) (hin : ApplyInput data kernel rows cols kr kc s) :
+    ∀ pr ∈ (ilApplyProgs : List (String × Prog × (List F → F))),
+      let r := pr.2.1.run s fuel
+      r.ctl = .ret ∧ r.shp "out" = [rows, cols] ∧ r.fa "data" = data ∧ r.fa "kernel" = kernel ∧
+      r.fa "out" = applyFlat (listArr data cols) (listArr kernel kc) rows cols kr kc (fun w => pr.2.2 w.flatten) := by
+  intro pr hpr
+  simp only [ilApplyProgs, List.mem_cons, List.mem_nil_iff, or_false] at hpr
+  rcases hpr with rfl | rfl | rfl | rfl | rfl | rfl | rfl
+  · exact applyMean_refines data kernel rows cols kr kc hkr hkc s fuel hin
+  · exact applyMax_refines data kernel rows cols kr kc hkr hkc s fuel hin
+  · exact applyMin_refines data kernel rows cols kr kc hkr hkc s fuel hin
+  · exact applyRange_refines data kernel rows cols kr kc hkr hkc s fuel hin
+  · exact applyStd_refines data kernel rows cols kr kc hkr hkc s fuel hin
+  · exact applyVar_refines data kernel rows cols kr kc hkr hkc s fuel hin
+  · exact applySum_refines data kernel rows cols kr kc hkr hkc s fuel hin
+
+/-- **il_apply_cell.** cell `(p, q)` of each generated program's output is its reducer applied to the window
+    `specWindow … p q` (`window_entry`: entry `(a, b)` is `data[p - kr/2 + a, q - kc/2 + b]` where `kernel[a, b] == 1` and
+    that cell is inside the raster, NaN elsewhere) -/
+theorem il_apply_cell (data kernel : List F) (rows cols kr kc : Nat) (hkr : kr % 2 = 1) (hkc : kc % 2 = 1)
+    (s : State F) (fuel : Nat) (hin : ApplyInput data kernel rows cols kr kc s) (p q : Nat) (hp : p < rows) (hq : q < cols) :
+    ∀ pr ∈ (ilApplyProgs : List (String × Prog × (List F → F))),
+      ((pr.2.1.run s fuel).fa "out")[p * cols + q]? =
+        some (pr.2.2 (specWindow (listArr data cols) (listArr kernel kc) rows cols kr kc (p : Int) (q : Int)).flatten) := by
+  intro pr hpr
+  rw [(il_apply_refines data kernel rows cols kr kc hkr hkc s fuel hin pr hpr).2.2.2.2, apply_window,
+    List.getElem?_map, allCells_getElem? rows cols p q hp hq]
+  rfl
+
+/-- **il_focal_stats.** `focal_stats` with the default statistics, on an accepted (odd) kernel, is the stack of the
+    outputs of the seven generated programs, in table order -/
+theorem il_focal_stats (data kernel : List F) (rows cols kr kc : Nat) (hkr : kr % 2 = 1) (hkc : kc % 2 = 1) (fuel : Nat) :
+    focalStats (listArr data cols) (listArr kernel kc) rows cols kr kc focal_stats_default =
+      .ok ((ilApplyProgs : List (String × Prog × (List F → F))).map fun pr =>
+        (pr.2.1.run (applyState data kernel rows cols kr kc) fuel).fa "out") := by
+  have hacc : kernelAccepted kr kc = true := (kernel_validation.2.2.2 kr kc).mpr ⟨hkr, hkc⟩
+  have hr := il_apply_refines data kernel rows cols kr kc hkr hkc _ fuel (applyState_input data kernel rows cols kr kc)
+  have e : ((ilApplyProgs : List (String × Prog × (List F → F))).map fun pr =>
+        (pr.2.1.run (applyState data kernel rows cols kr kc) fuel).fa "out") =
+      (ilApplyProgs : List (String × Prog × (List F → F))).map fun pr =>
+        applyFlat (listArr data cols) (listArr kernel kc) rows cols kr kc (fun w => pr.2.2 w.flatten) :=
+    List.map_congr_left fun pr hpr => (hr pr hpr).2.2.2.2
+  rw [e]
+  simp [focalStats, hacc, focal_stats_validates_kernel, focal_stats_default, statReducer, focal_stats_table, npReducer,
+    focal_stats_applies_each, Focal.apply, apply_validates_kernel, ilApplyProgs, List.mapM_cons]
+  rfl
+
+/-- **il_apply_even_err.** a kernel with an even side is outside the property's domain ("any odd kernel shape";
+    `custom_kernel` rejects it before `apply` / `focal_stats` call `_apply_numpy`: `kernel_validation`).  In
+    `_apply_numpy` the index arithmetic `kyidx = ky - (y - hrows)` then runs up to `2·hrows = krows`, one past the last
+    kernel row, whenever the raster cell `(y + hrows, ·)` exists (likewise for columns): each of the seven generated
+    programs stops, already at output cell `(0, 0)`, with an out-of-range read of `kernel` (numba does not check:
+    undefined behaviour, and a write past the end of `kernel_values` if the value read happens to be 1) -/
+theorem il_apply_even_err (data kernel : List F) (rows cols kr kc : Nat) (s : State F) (fuel : Nat)
+    (hin : ApplyInput data kernel rows cols kr kc s)
+    (heven : (kr % 2 = 0 ∧ kr / 2 < rows ∧ 0 < cols) ∨ (kc % 2 = 0 ∧ kc / 2 < cols ∧ 0 < rows)) :
+    ∀ pr ∈ (ilApplyProgs : List (String × Prog × (List F → F))), (pr.2.1.run s fuel).ctl = .err "index" := by
+  intro pr hpr
+  simp only [ilApplyProgs, List.mem_cons, List.mem_nil_iff, or_false] at hpr
+  rcases hpr with rfl | rfl | rfl | rfl | rfl | rfl | rfl
+  · simp only [Prog.run, applyMean_body]; exact applyBody_even_err _ _ data kernel rows cols kr kc s fuel hin heven
+  · simp only [Prog.run, applyMax_body]; exact applyBody_even_err _ _ data kernel rows cols kr kc s fuel hin heven
+  · simp only [Prog.run, applyMin_body]; exact applyBody_even_err _ _ data kernel rows cols kr kc s fuel hin heven
+  · simp only [Prog.run, applyRange_body]; exact applyBody_even_err _ _ data kernel rows cols kr kc s fuel hin heven
+  · simp only [Prog.run, applyStd_body]; exact applyBody_even_err _ _ data kernel rows cols kr kc s fuel hin heven
+  · simp only [Prog.run, applyVar_body]; exact applyBody_even_err _ _ data kernel rows cols kr kc s fuel hin heven
+  · simp only [Prog.run, applySum_body]; exact applyBody_even_err _ _ data kernel rows cols kr kc s fuel hin heven
+
+-- non-vacuity: a 2x3 kernel on a 2x2 raster, a 1x2 kernel on a 1x2 raster, any contents, any number type
+example (data kernel : List F) : (Gen.IL.applyMean.run (applyState data kernel 2 2 2 3) 0).ctl = .err "index" :=
+  il_apply_even_err data kernel 2 2 2 3 _ 0 (applyState_input _ _ _ _ _ _) (Or.inl (by decide))
+    ("mean", Gen.IL.applyMean, nanmean) (by simp [ilApplyProgs])
+example (data kernel : List F) : (Gen.IL.applySum.run (applyState data kernel 1 2 1 2) 0).ctl = .err "index" :=
+  il_apply_even_err data kernel 1 2 1 2 _ 0 (applyState_input _ _ _ _ _ _) (Or.inr (by decide))
+    ("sum", Gen.IL.applySum, nansum) (by simp [ilApplyProgs])
+
+end ILApplyGeneric
+
+section ILMeanGeneric
+open XrsVerif.IL
+variable {F : Type} [Fl F]
+
+/-- **il_mean_refines.** the generated `_mean_numpy`, any raster (also empty, one row, one column), any excludes list,
+    any fuel: ends with `return`, no out-of-range access, inputs unchanged, and cell `(p, q)` of `out` is the cell
+    itself when `_equal_numpy` matches it against an excluded value, else `nanmean` of the cells of the full 3×3 window
+    around it that lie inside the raster -/
+theorem il_mean_refines (data excl : List F) (rows cols ne : Nat) (s : State F) (fuel : Nat)
+    (hin : MeanInput data excl rows cols ne s) :
+    let r := Gen.IL.meanNumpy.run s fuel
+    r.ctl = .ret ∧ r.shp "out" = [rows, cols] ∧ r.fa "data" = data ∧ r.fa "excludes" = excl ∧
+    ∀ p q : Nat, p < rows → q < cols →
+      (r.fa "out")[p * cols + q]? = some
+        (if isExcluded excl (listArr data cols p q) then listArr data cols p q
+         else nanmean (footprintSel (fun _ _ => true) (listArr data cols) rows cols 3 3 p q)) := by
+  obtain ⟨h1, h2, h3, h4, h5⟩ := meanNumpy_refines data excl rows cols ne s fuel hin
+  refine ⟨h1, h2, h3, h4, ?_⟩
+  intro p q hp hq
+  rw [h5, meanOut, List.getElem?_map, allCells_getElem? rows cols p q hp hq]
+  simp only [Option.map_some, mean_spec]
+
+/-- **il_mean_pass.** one run of the generated program on a flattened raster is one pass of the model -/
+theorem il_mean_pass {rows cols : Nat} (excl : List F) (fuel : Nat) (g : Rows F) (h : RowsWF rows cols g) :
+    ilMeanPass excl rows cols fuel g.flatten = (meanPass rows cols excl g).flatten :=
+  ilMeanPass_eq excl fuel h
+
+/-- **il_mean_passes.** the wrapper `mean()` feeds the raster through the one-pass function `passes` times
+    (`mean_wrapper_iterates`, a generated fact): `passes` runs of the generated program, each on the output of the previous
+    one, are the model `meanN` of `mean_passes` / `excluded_pass_through` -/
+theorem il_mean_passes {rows cols : Nat} (excl : List F) (fuel : Nat) (p : Nat) (g : Rows F) (h : RowsWF rows cols g) :
+    (ilMeanPass excl rows cols fuel)^[p] g.flatten = (meanN rows cols excl p g).flatten := by
+  rw [meanN_eq_iter]
+  exact ilMeanPass_iterate excl fuel p h
+
+end ILMeanGeneric
+
+section ILExact2
+open XrsVerif.IL
+variable {K : Type} [Field K] [LinearOrder K] [IsStrictOrderedRing K] [Trig K]
+
+/-- **il_apply_stats.** exact arithmetic: cell `(p, q)` of the output of the generated program for each statistic is that
+    statistic of `under …` -- the non-NaN input cells under the 1-entries of the kernel centred on `(p, q)`, window
+    clipped at the raster edge: sum (0 when empty), mean, population variance, its square root, greatest, least,
+    greatest − least (all NaN when empty) -/
+theorem il_apply_stats (data kernel : List (NV K)) (rows cols kr kc : Nat) (hkr : kr % 2 = 1) (hkc : kc % 2 = 1)
+    (s : State (NV K)) (fuel : Nat) (hin : ApplyInput data kernel rows cols kr kc s) (p q : Nat) (hp : p < rows) (hq : q < cols) :
+    let u := under (listArr data cols) (listArr kernel kc) rows cols kr kc (p : Int) (q : Int)
+    let at' := fun (pg : Prog) => ((pg.run s fuel).fa "out")[p * cols + q]?
+    at' Gen.IL.applySum = some (some u.sum) ∧
+    at' Gen.IL.applyMean = some (if u = [] then none else some (u.sum / (u.length : K))) ∧
+    at' Gen.IL.applyVar = some (if u = [] then none else some (popVar u)) ∧
+    at' Gen.IL.applyStd = some (if u = [] then none else some (Trig.sqrt (popVar u))) ∧
+    (u = [] → at' Gen.IL.applyMax = some none ∧ at' Gen.IL.applyMin = some none ∧ at' Gen.IL.applyRange = some none) ∧
+    (u ≠ [] → ∃ hi lo, IsMaxOf u hi ∧ IsMinOf u lo ∧ at' Gen.IL.applyMax = some (some hi) ∧
+        at' Gen.IL.applyMin = some (some lo) ∧ at' Gen.IL.applyRange = some (some (hi - lo))) := by
+  intro u at'
+  have hc := il_apply_cell data kernel rows cols kr kc hkr hkc s fuel hin p q hp hq
+  obtain ⟨b1, b2, b3, b4, b5, b6⟩ := builtin_stats (listArr data cols) (listArr kernel kc) rows cols kr kc (p : Int) (q : Int)
+  have cMean := hc ("mean", Gen.IL.applyMean, nanmean) (by simp [ilApplyProgs])
+  have cMax := hc ("max", Gen.IL.applyMax, nanmax) (by simp [ilApplyProgs])
+  have cMin := hc ("min", Gen.IL.applyMin, nanmin) (by simp [ilApplyProgs])
+  have cRange := hc ("range", Gen.IL.applyRange, fun w => Fl.sub (nanmax w) (nanmin w)) (by simp [ilApplyProgs])
+  have cStd := hc ("std", Gen.IL.applyStd, nanstd) (by simp [ilApplyProgs])
+  have cVar := hc ("var", Gen.IL.applyVar, nanvar) (by simp [ilApplyProgs])
+  have cSum := hc ("sum", Gen.IL.applySum, nansum) (by simp [ilApplyProgs])
+  simp only at cMean cMax cMin cRange cStd cVar cSum
+  refine ⟨by simp only [at']; rw [cSum, b1], by simp only [at']; rw [cMean, b2], by simp only [at']; rw [cVar, b3],
+    by simp only [at']; rw [cStd, b4], ?_, ?_⟩
+  · intro h
+    obtain ⟨e1, e2, e3⟩ := b5 h
+    exact ⟨by simp only [at']; rw [cMax, e1], by simp only [at']; rw [cMin, e2], by simp only [at']; rw [cRange, e3]⟩
+  · intro h
+    obtain ⟨hi, lo, m1, m2, e1, e2, e3⟩ := b6 h
+    exact ⟨hi, lo, m1, m2, by simp only [at']; rw [cMax, e1], by simp only [at']; rw [cMin, e2],
+      by simp only [at']; rw [cRange, e3]⟩
+
+/-- **il_mean_eq_apply_ones.** a cell whose value is not excluded gets, from the generated `_mean_numpy`, exactly what the
+    generated `_apply_numpy` with the mean reducer computes with a full 3×3 kernel of ones; an excluded cell is passed
+    through untouched -/
+theorem il_mean_eq_apply_ones (data excl : List (NV K)) (rows cols : Nat) (fuel : Nat) (p q : Nat) (hp : p < rows) (hq : q < cols) :
+    let m := ((Gen.IL.meanNumpy.run (meanState data excl rows cols) fuel).fa "out")[p * cols + q]?
+    let a := ((Gen.IL.applyMean.run (applyState data (List.replicate 9 (some 1)) rows cols 3 3) fuel).fa "out")[p * cols + q]?
+    (listArr data cols p q ∈ excl → m = some (listArr data cols p q)) ∧ (listArr data cols p q ∉ excl → m = a) := by
+  intro m a
+  have hm : m = some (meanCell (listArr data cols) rows cols excl (p : Int) (q : Int)) := by
+    simp only [m]
+    rw [(meanNumpy_refines data excl rows cols excl.length _ fuel (meanState_input _ _ _ _)).2.2.2.2, meanOut,
+      List.getElem?_map, allCells_getElem? rows cols p q hp hq]
+    rfl
+  constructor
+  · intro hex
+    rw [hm, mean_spec, (excluded_iff excl _).mpr hex]
+    rfl
+  · intro hne
+    have ha := il_apply_cell data (List.replicate 9 (some (1 : K))) rows cols 3 3 (by decide) (by decide) _ fuel
+      (applyState_input _ _ _ _ _ _) p q hp hq ("mean", Gen.IL.applyMean, nanmean) (by simp [ilApplyProgs])
+    simp only at ha
+    rw [hm, mean_eq_apply_ones _ rows cols excl _ _ hne]
+    simp only [a]
+    rw [ha, nanmean_eq, nanmean_eq, vals_specWindow, vals_specWindow]
+    have : footprint (listArr data cols) (listArr (List.replicate 9 (some (1 : K))) 3) rows cols 3 3 p q =
+        footprint (listArr data cols) (fun _ _ => (some 1 : NV K)) rows cols 3 3 p q := by
+      unfold footprint footprintSel
+      apply List.filterMap_congr
+      intro c hc
+      obtain ⟨a', b', ha', hb', rfl⟩ := (mem_allCells _ _ _).mp hc
+      have hk : listArr (List.replicate 9 (some (1 : K))) 3 (a' : Int) (b' : Int) = some 1 := by
+        have : a' * 3 + b' < 9 := by omega
+        unfold listArr
+        simp only [Int.toNat_natCast]
+        rw [List.getD_eq_getElem?_getD, List.getElem?_replicate]
+        simp [this]
+      simp only [hk]
+    rw [this]
+
+end ILExact2
+
 /-! ## non-vacuity: concrete evaluations over ℚ (kernel-checked) -/
 section Examples
 instance : Trig ℚ := ⟨id, id, fun a _ => a, id, id, id, id⟩
@@ -577,6 +811,41 @@ example : ((Gen.IL.convolve2d.run (convState d3l k3l 3 3 3 3) 0).ctl,
   refine ⟨h.1, ?_⟩
   rw [h.2.2.2.2]
   decide +kernel
+-- Part D: the generated `_apply_numpy` programs on the 2x3 raster `d1` with the asymmetric 1x3 kernel `k1` (left
+-- neighbour only), as flat row-major lists; the generated `_mean_numpy` with NaN excluded; two passes
+private def d1l : List (NV ℚ) := [some 1, some 2, none, some 4, some 5, some 6]
+private def k1l : List (NV ℚ) := [some 1, some 0, some 0]
+example : ((Gen.IL.applySum.run (applyState d1l k1l 2 3 1 3) 0).ctl,
+      (Gen.IL.applySum.run (applyState d1l k1l 2 3 1 3) 0).fa "out") =
+    (IL.Ctl.ret, [some 0, some 1, some 2, some 0, some 4, some 5]) := by
+  have h := applySum_refines d1l k1l 2 3 1 3 (by decide) (by decide) _ 0 (applyState_input _ _ _ _ _ _)
+  rw [Prod.mk.injEq]
+  refine ⟨h.1, ?_⟩
+  rw [h.2.2.2.2]
+  decide +kernel
+example : (Gen.IL.applyRange.run (applyState d1l k3l 2 3 3 3) 0).fa "out" =
+    [some 1, some 1, some 0, some 4, some 4, some 1] := by
+  rw [(applyRange_refines d1l k3l 2 3 3 3 (by decide) (by decide) _ 0 (applyState_input _ _ _ _ _ _)).2.2.2.2]
+  decide +kernel
+example : ((Gen.IL.meanNumpy.run (meanState d1l [none] 2 3) 0).ctl,
+      (Gen.IL.meanNumpy.run (meanState d1l [none] 2 3) 0).fa "out") =
+    (IL.Ctl.ret, [some 3, some (18 / 5), none, some 3, some (18 / 5), some (13 / 3)]) := by
+  have h := meanNumpy_refines d1l [none] 2 3 1 _ 0 (meanState_input _ _ _ _)
+  rw [Prod.mk.injEq]
+  refine ⟨h.1, ?_⟩
+  rw [h.2.2.2.2]
+  decide +kernel
+example : RowsWF 2 3 g1 ∧ g1.flatten = d1l := by
+  refine ⟨⟨rfl, ?_⟩, rfl⟩
+  intro r hr
+  simp only [g1, List.mem_cons, List.mem_nil_iff, or_false] at hr
+  rcases hr with rfl | rfl <;> rfl
+example : (ilMeanPass [none] 2 3 0)^[2] d1l = (meanN 2 3 [none] 2 g1).flatten :=
+  il_mean_passes [none] 0 2 g1 ⟨rfl, by
+    intro r hr
+    simp only [g1, List.mem_cons, List.mem_nil_iff, or_false] at hr
+    rcases hr with rfl | rfl <;> rfl⟩
+example : (listArr d1l 3 0 2 ∈ [(none : NV ℚ)]) ∧ (listArr d1l 3 0 0 ∉ [(none : NV ℚ)]) := by decide +kernel
 -- hotspots: the classes, oddness, and a raster whose deviation is not zero
 example : hotspotClass (some (2 : ℚ)) = some 95 ∧ hotspotClass (some (-2 : ℚ)) = some (-95) ∧
     hotspotClass (some (33 / 20 : ℚ)) = some 0 ∧ hotspotClass (some (3 : ℚ)) = some 99 ∧
